@@ -4,6 +4,10 @@ import json, os
 HERE = os.path.dirname(os.path.dirname(os.path.abspath(__file__)))
 
 CLAIMED = {
+ "C08": dict(level="exploration", ref="§4 C08",
+   technique="deterministic simulation: seeded interleaved histories of creation / operations / BackPropagate / ResetGradContext by 1-4 clients on a shared pool with invalid-call faults, checked step by step against a small reference state machine, plus untracked twin run and final back-propagation sweep",
+   text="Seeded search over call histories on a shared tensor pool. A reference state machine (tracked, spent, hasGrad, operand links) makes every tracking decision and enforces the property's provisos during generation; after every step the nil-ness of every tensor's gradient, the reflected state of every tensor the step must not touch, and the effect of rejected calls are compared with the model; a twin run with tracking off must give bitwise-equal forward values; a final sweep back-propagates every tensor still allowed so that 'tracked' becomes observable. Sampling, not proof.",
+   note="Trusted: the reference state machine (60 lines), reflect-based fingerprints. Situations the statement leaves open (mixing tracked operands with gradient tensors / comparisons of spent tensors) are not generated."),
  "C01": dict(level="exploration", ref="§4 C01",
    technique="deterministic simulation: seeded DAG-building clients over shared leaves under a call-granularity scheduler; tree-unfolding twin run, exact finite differences on linear programs, additivity/order twins, bounded liveness in simulated steps (yield count) per back-propagation",
    text="Seeded search over operation DAGs (diamond chains, ladders, fan-outs, random reuse; 1-4 graphs sharing leaves; scheduler-chosen construction interleaving and back-propagation order). Each run compares the real back-propagation with a twin in which every shared sub-expression is recomputed per consumer (so no accumulation happens inside the library), with exact finite differences for linear programs, with per-graph solo runs and the reversed order, and bounds the work of each back-propagation in simulated steps. Sampling, not proof.",
